@@ -1,0 +1,106 @@
+//! verification facades over the unchanged readers, `compare` and the update writer.
+use std::str::from_utf8;
+
+use ip::Afi;
+use netconf::message::{ReadError, ReadXml, WriteXml};
+use quick_xml::{events::Event, NsReader, Writer};
+
+use super::{Candidate, Evaluated, Installed, Load, Name, Policies, Ranges};
+
+fn read<T>(doc: &str) -> Result<Policies<T>, ReadError>
+where
+    Policies<T>: ReadXml,
+{
+    let mut reader = NsReader::from_str(doc);
+    _ = reader.trim_text(true);
+    loop {
+        match reader.read_resolved_event()? {
+            (_, Event::Start(tag)) => return Policies::<T>::read_xml(&mut reader, &tag),
+            (_, Event::Eof) => {
+                return Err(ReadError::MissingElement {
+                    msg_type: "document",
+                    element: "root",
+                })
+            }
+            _ => continue,
+        }
+    }
+}
+
+fn ranges_to_strings<A: Afi>(ranges: &Ranges<A>) -> Vec<String> {
+    ranges
+        .iter()
+        .map(|range| format!("{},{},{}", range.prefix(), range.lower(), range.upper()))
+        .collect()
+}
+
+fn ranges_from_strings<A: Afi>(ranges: &[String]) -> Result<Ranges<A>, String> {
+    ranges
+        .iter()
+        .map(|range| range.parse().map_err(|err| format!("{range}: {err}")))
+        .collect()
+}
+
+/// `(name, filter expression)` of every candidate read from a `<data>`-rooted document.
+pub(crate) fn read_candidates(doc: &str) -> Result<Vec<(String, String)>, String> {
+    read::<Candidate>(doc)
+        .map(|policies| {
+            policies
+                .map
+                .into_iter()
+                .map(|(name, candidate)| (name.to_string(), candidate.filter_expr.to_string()))
+                .collect()
+        })
+        .map_err(|err| format!("{err:?}"))
+}
+
+/// `(name, ipv4 ranges, ipv6 ranges)` of every installed policy read from a `<data>`-rooted document.
+#[allow(clippy::type_complexity)]
+pub(crate) fn read_installed(doc: &str) -> Result<Vec<(String, Vec<String>, Vec<String>)>, String> {
+    read::<Installed>(doc)
+        .map(|policies| {
+            policies
+                .map
+                .into_iter()
+                .map(|(name, installed)| {
+                    (
+                        name.to_string(),
+                        ranges_to_strings(&installed.ipv4),
+                        ranges_to_strings(&installed.ipv6),
+                    )
+                })
+                .collect()
+        })
+        .map_err(|err| format!("{err:?}"))
+}
+
+/// Evaluated policy as seen by `compare`: `(name, filter expression, Some((ipv4, ipv6)) | None)`.
+pub(crate) type EvaluatedInput = (String, String, Option<(Vec<String>, Vec<String>)>);
+
+/// Parse `installed_doc`, compare with `evaluated`, and render the updates in emission order.
+pub(crate) fn plan(installed_doc: &str, evaluated: &[EvaluatedInput]) -> Result<Vec<String>, String> {
+    let installed = read::<Installed>(installed_doc).map_err(|err| format!("{err:?}"))?;
+    let map = evaluated
+        .iter()
+        .map(|(name, expr, ranges)| {
+            let filter_expr = expr.parse().map_err(|err| format!("{expr}: {err}"))?;
+            let ranges = ranges
+                .as_ref()
+                .map(|(ipv4, ipv6)| Ok::<_, String>((ranges_from_strings(ipv4)?, ranges_from_strings(ipv6)?)))
+                .transpose()?;
+            Ok((Name::new(name), Evaluated { filter_expr, ranges }))
+        })
+        .collect::<Result<_, String>>()?;
+    let evaluated = Policies { map };
+    let updates = evaluated.compare(&installed);
+    updates
+        .updates()
+        .map(|update| {
+            let mut buf = Vec::new();
+            update
+                .write_xml(&mut Writer::new(&mut buf))
+                .map_err(|err| format!("{err:?}"))?;
+            from_utf8(&buf).map(str::to_string).map_err(|err| err.to_string())
+        })
+        .collect()
+}
